@@ -792,3 +792,147 @@ func c09SitesOf(p *Prog, fn *ssa.Function) (sites []c09Site, closed bool) {
 	}
 	return sites, closed
 }
+
+// ---------- iteration view ----------
+
+// c09Iter is one loop over a collection, whatever its form: a classic range
+// loop (Loop != nil, body = the loop's blocks in Fn) or a range-over-func loop
+// (Loop == nil, body = the yield closure Fn) over a standard adapter
+// (slices.Values/All, maps.Keys/Values/All) or an in-module iterator.
+type c09Iter struct {
+	Fn       *ssa.Function
+	Loop     *Loop
+	Stmt     ssa.Instruction // the loop statement in the enclosing function (range-func: the iterator invocation)
+	Coll     ssa.Value       // the collection ranged over, in the frame of Stmt (nil: unknown)
+	Key, Val ssa.Value       // per-iteration key / value in Fn (nil if not bound)
+	Producer *ssa.Function   // in-module producer closure (nil otherwise)
+	ProdIter *c09Iter        // the producer's own loop that yields (for selection tests made by the producer)
+	ProdTr   func(ssa.Value) ssa.Value
+}
+
+// InBody: in belongs to the loop body.
+func (it *c09Iter) InBody(in ssa.Instruction) bool {
+	if it.Loop != nil {
+		return in.Parent() == it.Fn && it.Loop.Contains(in)
+	}
+	return in.Parent() == it.Fn
+}
+
+// ContinuesWithout: some path from (b, idx) reaches the next iteration (the loop
+// header; for a range-func body a return that is not `return false`) without
+// hitting the cut.
+func (it *c09Iter) ContinuesWithout(b *ssa.BasicBlock, idx int, ct *cut) bool {
+	if it.Loop != nil {
+		return c08PathExists(b, idx, it.Loop.Header.Instrs[0], false, ct, nil)
+	}
+	for _, r := range Returns(it.Fn) {
+		if len(r.Results) == 1 {
+			if cst, ok := r.Results[0].(*ssa.Const); ok && cst.Value != nil && cst.Value.String() == "false" {
+				continue // break / early exit
+			}
+		}
+		if c08PathExists(b, idx, r, false, ct, nil) {
+			return true
+		}
+	}
+	return false
+}
+
+// BodyStart: where an iteration begins.
+func (it *c09Iter) BodyStart() (*ssa.BasicBlock, int) {
+	if it.Loop != nil {
+		if _, _, body, _, ok := it.Loop.RangeIndex(); ok {
+			return body.To, 0
+		}
+		if _, _, body, _, ok := it.Loop.RangeMap(); ok {
+			return body.To, 0
+		}
+		return it.Loop.Header, 0
+	}
+	return it.Fn.Blocks[0], 0
+}
+
+// c09ItersIn lists the loops whose statement is in fn.
+func c09ItersIn(fn *ssa.Function) []*c09Iter {
+	var out []*c09Iter
+	for _, l := range Loops(fn) {
+		if ranged, idx, _, _, ok := l.RangeIndex(); ok {
+			it := &c09Iter{Fn: fn, Loop: l, Stmt: l.Header.Instrs[0], Coll: ranged, Key: idx}
+			for _, ref := range *idx.Referrers() {
+				if ia, ok := ref.(*ssa.IndexAddr); ok && (c09SameKey(ia.X, ranged) || c09SameFieldLoad(ia.X, ranged)) {
+					for _, r2 := range *ia.Referrers() {
+						if ld, ok := r2.(*ssa.UnOp); ok && ld.Op == token.MUL {
+							it.Val = ld
+						}
+					}
+				}
+			}
+			out = append(out, it)
+		} else if ranged, next, _, _, ok := l.RangeMap(); ok {
+			it := &c09Iter{Fn: fn, Loop: l, Stmt: l.Header.Instrs[0], Coll: ranged}
+			for _, r := range *next.Referrers() {
+				if e, ok := r.(*ssa.Extract); ok {
+					if e.Index == 1 {
+						it.Key = e
+					} else if e.Index == 2 {
+						it.Val = e
+					}
+				}
+			}
+			out = append(out, it)
+		}
+	}
+	AllInstrs(fn, func(in ssa.Instruction) {
+		seq, body, ok := c09RangeFuncCall(in)
+		if !ok {
+			return
+		}
+		prm := func(i int) ssa.Value {
+			if i < len(body.Params) {
+				return body.Params[i]
+			}
+			return nil
+		}
+		if mk, isCall := c09Resolved(seq).(*ssa.Call); isCall && len(mk.Call.Args) >= 1 {
+			it := &c09Iter{Fn: body, Stmt: in, Coll: mk.Call.Args[0]}
+			switch CalleeName(mk) {
+			case "slices.Values", "maps.Values":
+				it.Val = prm(0)
+			case "maps.Keys":
+				it.Key = prm(0)
+			case "slices.All", "maps.All":
+				it.Key, it.Val = prm(0), prm(1)
+			default:
+				it = nil
+			}
+			if it != nil {
+				out = append(out, it)
+				return
+			}
+		}
+		for _, y := range c09Yielders(seq, 0) {
+			y := y
+			for _, yc := range c09YieldCalls(y.Fn) {
+				for _, pit := range c09ItersIn(y.Fn) {
+					if !pit.InBody(yc) {
+						continue
+					}
+					it := &c09Iter{Fn: body, Stmt: in, Producer: y.Fn, ProdIter: pit, ProdTr: y.Tr}
+					if pit.Coll != nil {
+						it.Coll = y.Tr(pit.Coll)
+					}
+					for i, a := range yc.Call.Args {
+						if pit.Key != nil && c09SameKey(a, pit.Key) {
+							it.Key = prm(i)
+						}
+						if pit.Val != nil && (c09SameKey(a, pit.Val) || c09DescObjOf(pit.Val).vals[a]) {
+							it.Val = prm(i)
+						}
+					}
+					out = append(out, it)
+				}
+			}
+		}
+	})
+	return out
+}
